@@ -1272,7 +1272,19 @@ fn other_numeric_cases(sink: &mut Sink, bin: &str, scratch: &str) {
         cases.push((format!("check --max-files {v}"), sv(&["check", "--no-sloc-cache", "--max-files", v, "."]), None));
         cases.push((format!("check --max-dirs {v}"), sv(&["check", "--no-sloc-cache", "--max-dirs", v, "."]), None));
     }
-    for (label, args, cfg) in cases {
+    // flag values outside the documented domain (durations, globs): the command must exit 2
+    let n_numeric = cases.len();
+    for d in ["abc", "7y", "0d", "", "99999999999999999999d"] {
+        cases.push((format!("stats trend --since {d}"), sv(&["stats", "trend", "--no-sloc-cache", "--since", d]), None));
+        cases.push((format!("stats report --since {d}"), sv(&["stats", "report", "--no-sloc-cache", "--since", d]), None));
+    }
+    for g in ["[bad", "src/{a", "[z-a]"] {
+        cases.push((format!("check --exclude {g}"), sv(&["check", "--no-sloc-cache", "--exclude", g, "."]), None));
+        cases.push((format!("check --exclude {g} --files"), sv(&["check", "--no-sloc-cache", "--exclude", g, "--files", "src/a.rs"]), None));
+        cases.push((format!("stats summary --exclude {g}"), sv(&["stats", "summary", "--no-sloc-cache", "--exclude", g]), None));
+    }
+    for (ci, (label, args, cfg)) in cases.into_iter().enumerate() {
+        let must_reject = ci >= n_numeric;
         if !sink.want() {
             sink.skip();
             continue;
@@ -1307,6 +1319,9 @@ fn other_numeric_cases(sink: &mut Sink, bin: &str, scratch: &str) {
             Some(format!("`{label}` panicked: {}", err.lines().find(|l| l.contains("panicked")).unwrap_or("")))
         } else if rc.is_none() || !matches!(rc, Some(0..=2)) {
             Some(format!("`{label}` ended abnormally (exit {rc:?}): {}", err.lines().next().unwrap_or("")))
+        } else if must_reject && rc != Some(2) {
+            let key = if label.contains("--since") { "key=invalid-since-falls-back " } else { "" };
+            Some(format!("{key}`{label}` exits {rc:?} although the value is outside the documented domain: {}", err.lines().find(|l| !l.trim().is_empty()).unwrap_or("")))
         } else {
             None
         };
